@@ -103,7 +103,8 @@ fn run_graph<T: Fl>(ctx: &Ctx, g: &Graph<T>, levels: usize, total: &mut Collecto
         return;
     }
     let n = g.n();
-    let rgb_nodes: Vec<usize> = (0..n).filter(|&i| matches!(g.nodes[i].kind, Kind::Rgb(_))).collect();
+    // grey sources: RGB nodes (r = g = b) and luma nodes (every luma value is a grey)
+    let rgb_nodes: Vec<usize> = (0..n).filter(|&i| matches!(g.nodes[i].kind, Kind::Rgb(_) | Kind::Luma(_))).collect();
     let nch = 64usize;
     let rgb_ref = &rgb_nodes;
     let cc = pv::par::run_chunks(nch * rgb_nodes.len(), |ci, c| {
@@ -115,7 +116,7 @@ fn run_graph<T: Fl>(ctx: &Ctx, g: &Graph<T>, levels: usize, total: &mut Collecto
         let hi = if part + 1 == nch { levels + 1 } else { levels * (part + 1) / nch };
         for lv in lo..hi {
             let gl = T::from64(lv as f64 / levels as f64);
-            let v = [gl, gl, gl];
+            let v = if ka.is_luma() { [gl, T::from64(0.0), T::from64(0.0)] } else { [gl, gl, gl] };
             let gcls = grey_class(gl.to64());
             st += 1;
             for b in 0..n {
@@ -209,7 +210,7 @@ fn run_graph<T: Fl>(ctx: &Ctx, g: &Graph<T>, levels: usize, total: &mut Collecto
         c.add(&sub, st, tr, tv, st);
     });
     total.merge(cc);
-    total.exhaustive(&sub, true, &format!("{} RGB nodes x all {} grey levels k/{} (incl. black and white) x every outgoing edge and the edge back", rgb_nodes.len(), levels + 1, levels));
+    total.exhaustive(&sub, true, &format!("{} RGB and luma nodes x all {} grey levels k/{} (incl. black and white) x every outgoing edge and the edge back", rgb_nodes.len(), levels + 1, levels));
 }
 
 // ---------------------------------------------------------------------------------------
@@ -289,7 +290,18 @@ fn replay(c: &mut Collector, rep: &Value) {
                 ("D50", "f32") => go!(pgd::d50_f32()),
                 ("D50", "f64") => go!(pgd::d50_f64()),
                 ("DCI", "f32") => go!(pgd::dci_f32()),
-                _ => go!(pgd::dci_f64()),
+                ("DCI", "f64") => go!(pgd::dci_f64()),
+                ("A", "f32") => go!(pgd::a_f32()),
+                ("A", "f64") => go!(pgd::a_f64()),
+                ("E", "f32") => go!(pgd::e_f32()),
+                ("E", "f64") => go!(pgd::e_f64()),
+                ("D55", _) => go!(pgd::d55_f64()),
+                ("D75", _) => go!(pgd::d75_f64()),
+                ("C", _) => go!(pgd::c_f64()),
+                ("B", _) => go!(pgd::b_f64()),
+                ("F2", _) => go!(pgd::f2_f64()),
+                ("F7", _) => go!(pgd::f7_f64()),
+                _ => go!(pgd::f11_f64()),
             }
         }
         "matrix" => {
@@ -332,6 +344,18 @@ fn real_main() -> i32 {
     run_graph(&ctx, &pgd::d50_f64(), levels, &mut total);
     run_graph(&ctx, &pgd::dci_f32(), levels, &mut total);
     run_graph(&ctx, &pgd::dci_f64(), levels, &mut total);
+    // CIE-only white points: the luma node Luma<Linear<Wp>> is the grey source
+    run_graph(&ctx, &pgd::a_f32(), levels, &mut total);
+    run_graph(&ctx, &pgd::a_f64(), levels, &mut total);
+    run_graph(&ctx, &pgd::e_f32(), levels, &mut total);
+    run_graph(&ctx, &pgd::e_f64(), levels, &mut total);
+    run_graph(&ctx, &pgd::d55_f64(), levels, &mut total);
+    run_graph(&ctx, &pgd::d75_f64(), levels, &mut total);
+    run_graph(&ctx, &pgd::c_f64(), levels, &mut total);
+    run_graph(&ctx, &pgd::b_f64(), levels, &mut total);
+    run_graph(&ctx, &pgd::f2_f64(), levels, &mut total);
+    run_graph(&ctx, &pgd::f7_f64(), levels, &mut total);
+    run_graph(&ctx, &pgd::f11_f64(), levels, &mut total);
     constants::run(&ctx, &mut total);
     check_matrix_inverses(&ctx, &mut total);
     adapt::run(&ctx, &mut total);
